@@ -808,6 +808,13 @@ contract(
     # and the value recorded for this pair at THIS source's user-space location is the quantised UFO lookup of the pair in this
     # source's kerning
     hints={
+        # the two glyph -> group maps handed to lookupKerningValue cover the classes of THEIR side: every member of every group of
+        # that side has an entry (that the entry names a group containing the glyph is not derivable from the engine's facts about
+        # a dict comprehension with two `for` clauses: tried, times out)
+        # (attached to the first statement after the two comprehensions, whose text does not depend on them)
+        "all_pairs: set[tuple[str, str]] = set()": [
+            f"all(all(g in glyphTo{W}Group for g in side{k}Classes[n]) for n in set(side{k}Classes))" for W, k in (("First", 1), ("Second", 2))
+        ],
         "var_scalar.values[location] = value": [
             "source.layerName is None and kerning == source.font.kerning and var_scalar.values.d[location] == k5_quant(k10_lookup(pair, kerning, unified_groups, glyphToFirstGroup, glyphToSecondGroup), quantization)",
         ],
